@@ -145,7 +145,15 @@ func runLive(j Job) *Result {
 		r := rand.New(rand.NewSource(j.Seed*2038074743 + int64(i)))
 		l := &liveRun{s: st, hist: hist, r: r}
 		var w *ops.World
-		switch i % 8 {
+		if j.Variant == "unpriced" {
+			l.fam = "unpriced-asset-slash"
+			w = l.unpricedSlash()
+		}
+		sel := i % 8
+		if w != nil {
+			sel = -1
+		}
+		switch sel {
 		case 0, 1, 2, 3, 4:
 			prof := []string{"", "slash", "power", "invalid", []string{"exit", "keys", "queues"}[r.Intn(3)]}[i%8]
 			l.fam = "ledger:" + prof
@@ -603,6 +611,18 @@ func (l *liveRun) unpricedSlash() *ops.World {
 	s2 := w.AddStaker(w.Assets[0].Lz, sim.NewAccount("unpriced-staker2-"+l.hist).Eth.Bytes())
 	if st := w.Deposit(s2, w.Assets[0], amt); st.Ack {
 		w.Delegate(s2, w.Assets[0], victim, amt)
+	}
+	// an AVS that supports a priced asset and the new token; the operators opt in (their values are refreshed at
+	// every epoch end of that AVS, with and without a price for the new token)
+	owner := c.Gen.Cfg.Accounts[4]
+	spec := ops.AVSSpec{Owner: owner, Name: "unpriced-avs", Assets: []string{w.Assets[0].ID, a.ID}, MinSelf: 0, EpochID: "minute", Unbonding: 2, TaskAddr: sim.NewAccount("unpriced-task-" + l.hist).Eth}
+	if r.Intn(2) == 0 {
+		spec.Assets = []string{a.ID, w.Assets[0].ID, w.Assets[1].ID}
+	}
+	if st := w.RegisterAVS(spec); st.Ack {
+		for _, o := range w.Opers {
+			w.OptIn(o, owner.Eth.String(), nil)
+		}
 	}
 	for k := 0; k < 17 && !w.Dead; k++ { // the new feeder starts 10 blocks later, its first window passes without reports
 		w.Advance(w.Dt)
